@@ -23,7 +23,7 @@ RULE = ("tables (1-12 rows; float with NaN, int, clearly non-numeric ASCII strin
         "Non-trivial = proper subset, >=1 NaN and >=1 string column (tables) / >=2 components (images); distinct by spec hash.")
 ASSUMPTIONS = [
     "what each format can represent is fixed up front: gridded FITS keeps numeric components only, one HDU (and one loaded dataset) each, named by the upper-cased label; FITS/VO tables and CSV keep names and text; HDF5 stores text as ASCII bytes (compared after decoding) and blanks masked integer pixels with 0",
-    "zero-row tables (empty subsets of tables) are a counted class: loud reader failures are recorded, not asserted",
+    "zero-row tables (empty subsets of tables): the reader must not raise and whatever it returns must hold no rows; the FITS table reader returns no dataset at all for them, which is accepted",
     "IPAC and LaTeX exporters have no registered reader for what they write here and are not round-tripped",
 ]
 
@@ -109,8 +109,8 @@ def fn_table(spec, rec):
             back = load_data(path)
         except Exception as e:  # noqa
             if mask is not None and not mask.any():
-                rec.label("zero-rows:reader-raises:" + type(e).__name__)
-                return
+                # a file written for an empty subset holds the components with no rows; every reader copes with that
+                raise Mismatch("reader-raises-on-empty-subset/%s/%s" % (spec["format"], type(e).__name__), repr(e)[:300])
             raise Mismatch("reader-raises/%s/%s" % (spec["format"], type(e).__name__), repr(e))
         if mask is not None and not mask.any():
             # whatever a reader makes of a table without rows, it must not contain rows: exactly the selected rows were to be written
